@@ -16,5 +16,7 @@ def run(run, model):
     run.do(marker.body_rules, model)
     run.do(marker.key_rule, model)
     marker.report_rule(run, model, "C11.release-on-all-exits", marker.MARKER_REGIONS, "no exit is reached with the marker held (a leaked marker would leave later, non re-entrant calls unchecked)", as_rule="C10.no-sticky")
+    from . import inv
+    run.do(inv.selection, model, "C10.wrapped-members", "C10.wrapped-members-source")
     run.minimum("C10.own-release", 5, "two checker wrappers, constructor wrapper, two method wrappers")
     run.minimum("C10.key", 5)
